@@ -4,6 +4,7 @@
 From RB Require Import Base.Prelude Sig.Types Wire.Value Wire.SpecEnc Wire.Marshal Wire.Relabel Wire.MarshalProofs
   Wire.Unmarshal Wire.HasSig Wire.HasSigProofs Wire.Body Wire.BodyProofs.
 From RB Require Import Sig.Parser Wire.Decode Wire.DecodeComplete Wire.DecodeSoundLemmas Wire.BodyAdvance.
+From RB Require Import Wire.BodyRollback.
 
 (* after ANY history of pushes (succeeding or failing at any inner element) and resets, signature,
    bytes and descriptor count are exactly the specification's rendering of the items committed since
@@ -125,3 +126,40 @@ Theorem C15_builder_by_value : forall be ops b oks,
   (bsig b, bbuf b, bfds b) = render be (committed_by_value ops oks []).
 Proof. exact body_history_by_value. Qed.
 Print Assumptions C15_builder_by_value.
+
+(** ** the rollback mechanism (Wire/BodyRollback.v; examples in Wire/BodyRollbackExamples.v)
+    Wire/Body.v models push_mult_helper by value (a failed push returns the body it was given), which makes the
+    no-trace theorems above hold by construction. The Rust code records three lengths, runs the pushes on the body in
+    place and truncates on error; [step_body_mech] / [run_body_mech] model exactly that. *)
+
+(* every marshaller only appends, whether it succeeds or fails: the buffer it leaves starts with the buffer it was
+   given (length back-patching happens inside the appended part) and the descriptor count does not go down *)
+Theorem C15_marshallers_only_append : forall be v,
+  (forall c, extends c (fst (marshal_t be v c)))
+  /\ (forall d c, extends c (fst (marshal_p be d v c)))
+  /\ (forall c, extends c (fst (marshal_param_top be v c))).
+Proof.
+  intros be v. split; [exact (marshal_t_appends be v)|]. split; [intros d; exact (marshal_p_appends be v d)|].
+  exact (marshal_param_top_appends be v).
+Qed.
+Print Assumptions C15_marshallers_only_append.
+
+(* hence truncating to the recorded lengths restores the old body: the mechanism computes exactly what the model
+   computes, for every operation and every history *)
+Theorem C15_rollback_mechanism : forall b o, step_body_mech b o = step_body b o.
+Proof. exact step_body_mech_eq. Qed.
+Print Assumptions C15_rollback_mechanism.
+Theorem C15_rollback_mechanism_run : forall ops b, run_body_mech b ops = run_body b ops.
+Proof. exact run_body_mech_eq. Qed.
+Print Assumptions C15_rollback_mechanism_run.
+
+(* so the theorems above are theorems about the mechanism *)
+Theorem C15_failed_push_no_trace_mech : forall b o b', step_body_mech b o = (b', false) -> b' = b.
+Proof. intros b o b'. rewrite step_body_mech_eq. apply C15_failed_push_no_trace. Qed.
+Print Assumptions C15_failed_push_no_trace_mech.
+Theorem C15_builder_mech : forall be ops b oks,
+  Forall op_ok ops -> total_fds ops <= 2 ^ 32 ->
+  run_body_mech (new_body be) ops = (b, oks) ->
+  (bsig b, bbuf b, bfds b) = render be (committed ops oks []) /\ length oks = length ops.
+Proof. intros be ops b oks. rewrite run_body_mech_eq. apply C15_builder. Qed.
+Print Assumptions C15_builder_mech.
